@@ -614,7 +614,7 @@ Definition handle_readlink (s : srv) (h : N) : srv * obs :=
 
 (* ---------- CREATE / MKDIR / SYMLINK / MKNOD ---------- *)
 Definition invalidate_for_new (s : srv) (d p : path) : srv :=
-  dc_invalidate (ac_invalidate (ac_invalidate_neg_in_dir (ac_invalidate s d) d) p) d.
+  dc_invalidate (ac_invalidate_tree (ac_invalidate (ac_invalidate_neg_in_dir (ac_invalidate s d) d) p) p) d.
 
 Definition validate_mode (m : N) : N :=
   if negb (N.land m 61440 =? 0) then NFSERR_INVAL            (* 0170000 *)
@@ -814,7 +814,7 @@ Definition handle_remove (s : srv) (h : N) (n : name) : srv * obs :=
           match snd r with
           | Err e => failed_reply (fst r) h d (map_error e) dpre
           | Ok _ =>
-            let s2 := dc_invalidate (ac_invalidate (ac_invalidate (fst r) p) d) d in
+            let s2 := dc_invalidate (dc_invalidate_tree (ac_invalidate (ac_invalidate (ac_invalidate_tree (fst r) p) p) d) p) d in
             let '(s3, dpost) := getattr_h s2 h d in
             match dpost with
             | Err e => (s3, fail_wcc (map_error e))
@@ -851,7 +851,7 @@ Definition handle_rmdir (s : srv) (h : N) (n : name) : srv * obs :=
                                    if (m =? NFSERR_EXIST) || (m =? NFSERR_IO) then NFSERR_NOTEMPTY else m end in
                 failed_reply (fst r) h d code dpre
             | Ok _ =>
-              let s3 := dc_invalidate (dc_invalidate (ac_invalidate (ac_invalidate (fst r) p) d) d) p in
+              let s3 := dc_invalidate_tree (dc_invalidate (ac_invalidate (ac_invalidate (ac_invalidate_tree (fst r) p) p) d) d) p in
               let '(s4, dpost) := getattr_h s3 h d in
               match dpost with
               | Err e => (s4, fail_wcc (map_error e))
